@@ -711,8 +711,8 @@ def diff(state: State, other: State) -> State:
     return state
 
   self_flat = to_flat_state(state)
-  other_flat = to_flat_state(other)
-  diff = {k: v for k, v in self_flat.items() if k not in other_flat}
+  other_paths = set(to_flat_state(other).paths)
+  diff = {k: v for k, v in self_flat if k not in other_paths}
 
   return from_flat_state(diff)
 
